@@ -61,7 +61,7 @@ def _dtype_wrap(interp, v: Val, kwargs) -> Val:
 
 # ----------------------------------------------------------------------------- constructors / conversions
 
-@prim("numpy.array", "numpy.asarray", "numpy.copy", "numpy.ascontiguousarray", "numpy.asanyarray")
+@prim("numpy.array", "numpy.asarray", "numpy.copy", "numpy.ascontiguousarray", "numpy.asanyarray", "numpy.asarray_chkfinite")
 def p_array(I, n, pos, kw):
     v = pos[0] if pos else kw.get("object", kw.get("a"))
     if isinstance(v, Alt):
@@ -461,6 +461,26 @@ def p_iter(I, n, pos, kw):
     return I.unknown("prim:builtins.iter", n)
 
 
+@prim("itertools.repeat", "itertools.cycle")
+def p_endless(I, n, pos, kw):
+    """itertools.repeat(x[, k]) / itertools.cycle(<concrete list>): an iterator that `next` reads item by item; the endless ones
+    wrap around"""
+    what = I.log[-1]["target"].rsplit(".", 1)[1]
+    if what == "repeat":
+        times = _kw(kw, pos, "times", 1)
+        if times is None or isinstance(times, NoneV):
+            return ObjV(None, dict(src=Seq([pos[0]], "list"), pos=0, wraps=True), tag="iter")
+        if isinstance(times, Sc) and times.e is not None and times.e[0] == "num" and float(times.e[1]).is_integer() and 0 <= times.e[1] <= 64:
+            return ObjV(None, dict(src=Seq([pos[0]] * int(times.e[1]), "list"), pos=0), tag="iter")
+        return I.unknown("prim:itertools.repeat", n)
+    src = pos[0]
+    if isinstance(src, StrV):
+        src = Seq([StrV(ch) for ch in src.s], "list")
+    if isinstance(src, Seq) and src.items and not hasattr(src, "appended"):
+        return ObjV(None, dict(src=Seq(list(src.items), "list"), pos=0, wraps=True), tag="iter")
+    return I.unknown("prim:itertools.cycle", n)
+
+
 @prim("builtins.next")
 def p_next(I, n, pos, kw):
     # next(<generator over a concrete list with decided conditions>[, default]): the comprehension is evaluated eagerly
@@ -468,6 +488,9 @@ def p_next(I, n, pos, kw):
     if isinstance(v, ObjV) and v.tag == "iter" and v.attrs["pos"] is not None:
         src, k = v.attrs["src"], v.attrs["pos"]
         if isinstance(src, Seq):
+            if v.attrs.get("wraps") and src.items:
+                v.attrs["pos"] = k + 1
+                return src.items[k % len(src.items)]
             if k < len(src.items):
                 v.attrs["pos"] = k + 1
                 return src.items[k]
@@ -553,6 +576,9 @@ def p_list(I, n, pos, kw):
     if isinstance(v, Arr) and v.ndim == 1 and v.axes[0][0].concrete is not None and I.cfg.flags.get("order_model") is not None:
         sp, iv = v.axes[0]
         return Seq([Sc(sym.subst_ivar(v.elem, iv, k)) for k in range(sp.concrete)], "list")
+    if isinstance(v, Arr) and v.ndim >= 2 and v.axes[0][0].concrete is not None and I.cfg.flags.get("order_model") is not None:
+        # list(<2-d array of known height>): the python list of its rows
+        return Seq([arrays.index(v, [("int", k)]) for k in range(v.axes[0][0].concrete)], "list")
     if isinstance(v, Arr):
         return Arr(v.axes, v.elem, "list", v.uid)
     if isinstance(v, (Bag, Concat)):
@@ -652,6 +678,48 @@ def p_callable(I, n, pos, kw):
 def p_effect(I, n, pos, kw):
     I.event("warn" if I.log[-1]["target"] == "warnings.warn" else "print", n)
     return NoneV()
+
+
+# ---------------------------------------------------------------- diagnostics: logging and clocks
+# A logger is an effect sink: what it is handed does not come back into the computation.  Whether a level is enabled is
+# not known to the analysis, so `isEnabledFor` is an opaque condition and both arms of a test on it are followed.
+CONSTANTS.update({"logging.DEBUG": sym.Num(10), "logging.INFO": sym.Num(20), "logging.WARNING": sym.Num(30),
+                  "logging.ERROR": sym.Num(40), "logging.CRITICAL": sym.Num(50), "logging.NOTSET": sym.Num(0)})
+
+
+@prim("logging.getLogger")
+def p_get_logger(I, n, pos, kw):
+    return ObjV(None, {}, tag="logger")
+
+
+@prim("logging.NullHandler", "logging.StreamHandler", "logging.Formatter")
+def p_log_handler(I, n, pos, kw):
+    return ObjV(None, {}, tag="log-handler")
+
+
+def _logger_method(name):
+    def h(I, n, recv, pos, kw):
+        if not (isinstance(recv, ObjV) and recv.tag in ("logger", "log-handler")):
+            return I.unknown("method:" + name, n)
+        if name in ("isEnabledFor", "getEffectiveLevel", "hasHandlers"):
+            return Sc(sym.Opq("log-config", (), fresh("lg")))
+        if name == "getChild":
+            return ObjV(None, {}, tag="logger")
+        I.event("log", n, method=name)
+        return NoneV()
+    return h
+
+
+for _m in ("debug", "info", "warning", "error", "exception", "critical", "log", "addHandler", "removeHandler", "setLevel",
+           "isEnabledFor", "getEffectiveLevel", "hasHandlers", "getChild", "setFormatter"):
+    if _m not in METHODS:
+        METHODS[_m] = _logger_method(_m)
+
+
+@prim("time.perf_counter", "time.time", "time.monotonic", "time.process_time", "time.perf_counter_ns")
+def p_clock(I, n, pos, kw):
+    # a clock reading: a number the data does not determine (C19's PU-RNG decides where one may be taken)
+    return Sc(sym.Opq("clock", (), fresh("clk")))
 
 
 @prim("builtins.int", "builtins.float", "builtins.bool")
@@ -1512,6 +1580,14 @@ def p_dot(I, n, pos, kw):
     return dot(I, n, pos[0], pos[1])
 
 
+@prim("numpy.matmul")
+def p_matmul(I, n, pos, kw):
+    A_, B_ = (x if isinstance(x, Arr) else arrays.to_arr(x) for x in pos[:2])
+    if isinstance(A_, Arr) and isinstance(B_, Arr) and A_.ndim <= 2 and B_.ndim <= 2:
+        return dot(I, n, pos[0], pos[1])
+    return I.unknown("matmul", n)
+
+
 def dot(I, n, a: Val, b: Val) -> Val:
     from .values import VStack
     if isinstance(a, VStack):
@@ -1559,6 +1635,37 @@ def p_meshgrid(I, n, pos, kw):
     axes = [a.axes[0], b.axes[0]] if ij else [b.axes[0], a.axes[0]]
     I.event("meshgrid", n, ij=ij)
     return Seq([Arr(axes, a.elem, "nd"), Arr(axes, b.elem, "nd")], "tuple")
+
+
+@prim("numpy.repeat", "numpy.tile")
+def p_repeat_tile(I, n, pos, kw):
+    """np.repeat(a, k) / np.tile(a, k) of a vector with a scalar count: the row-major flattening of the (|a|, k) table whose
+    row i is a[i] repeated, resp. of the (k, |a|) table whose every row is a — kept as that table with the `flat` mark,
+    exactly like `meshgrid(...)[..].flatten()` (a later reshape to the table's shape is the round trip)"""
+    what = I.log[-1]["target"].rsplit(".", 1)[1]
+    a = _kw(kw, pos, "a" if what == "repeat" else "A", 0)
+    k = _kw(kw, pos, "repeats" if what == "repeat" else "reps", 1)
+    if kw.get("axis") is not None and not isinstance(kw.get("axis"), NoneV):
+        return I.unknown("prim:numpy." + what, n)
+    arr = a if isinstance(a, Arr) else arrays.to_arr(a)
+    if not (isinstance(arr, Arr) and arr.ndim == 1 and isinstance(k, Sc) and k.e is not None):
+        return I.unknown("prim:numpy." + what, n)
+    arr = arr.renamed()
+    if k.e[0] == "num" and float(k.e[1]) == 1:
+        return Arr(arr.axes, arr.elem, "nd")
+    other = (rng(k.e), fresh())
+    if arr.axes[0][0].concrete is not None or other[0].concrete is not None:
+        # small concrete tables are spelled out element by element
+        m_, k_ = arr.axes[0][0].concrete, other[0].concrete
+        if m_ is None or k_ is None:
+            return I.unknown("prim:numpy." + what, n)
+        items = [sym.subst_ivar(arr.elem, arr.axes[0][1], i) for i in range(m_)]
+        seq = [x for x in items for _ in range(k_)] if what == "repeat" else items * k_
+        return arrays.to_arr(Seq([Sc(x) for x in seq], "list"))
+    out = Arr([arr.axes[0], other] if what == "repeat" else [other, arr.axes[0]], arr.elem, "nd")
+    out.flat = "C"
+    I.event("flatten", n, arg=out, order="C")
+    return out
 
 
 @prim("numpy.reshape")
@@ -2068,6 +2175,24 @@ def p_interp(I, n, pos, kw):
 
 
 # ----------------------------------------------------------------------------- attributes and methods of arrays
+
+@prim("numpy.size", "numpy.shape", "numpy.ndim")
+def p_size_shape(I, n, pos, kw):
+    """np.size(a) / np.shape(a) / np.ndim(a): the attribute of the array the argument converts to"""
+    if len(pos) != 1 or kw:
+        return I.unknown("prim:" + I.log[-1]["target"], n)
+    v = pos[0]
+    if isinstance(v, Seq) and not v.items:
+        what = I.log[-1]["target"].rsplit(".", 1)[1]
+        return {"size": Sc(sym.ZERO), "shape": Seq([Sc(sym.ZERO)], "tuple"), "ndim": Sc(sym.ONE)}[what]
+    if isinstance(v, Sc):
+        what = I.log[-1]["target"].rsplit(".", 1)[1]
+        return {"size": Sc(sym.ONE), "shape": Seq([], "tuple"), "ndim": Sc(sym.ZERO)}[what]
+    a = v if isinstance(v, (Arr, Bag, Blocks, Alt)) else arrays.to_arr(v)
+    if a is None:
+        return I.unknown("prim:" + I.log[-1]["target"], n)
+    return array_attr(I, a, I.log[-1]["target"].rsplit(".", 1)[1], n)
+
 
 def array_attr(I, base: Val, attr: str, node) -> Val:
     if isinstance(base, Alt):
